@@ -78,7 +78,7 @@ func misspellings() []string {
 var cssNumberLike = regexp.MustCompile(`^[0-9.+\-eE]+[a-z%]*$`)
 var cssNumber = regexp.MustCompile(`^[+-]?([0-9]+|[0-9]*\.[0-9]+)([eE][+-]?[0-9]+)?([a-z]+|%)?$`)
 
-var malformedNumbers = []string{"1.2.3", "...", "1.", "1..2", ".", "-", "+", "1e", "--1", "1-", "1.2.", "..1", "++1", "1+", "-.", "1.e3", "1e+", "1.px", "1.s", "1.2.3s", "..5em", "1..5%", "-", "1.ms", ".s", "+.px"}
+var malformedNumbers = []string{"0.", "0.5.", "1.2.3", "...", "1.", "1..2", ".", "-", "+", "1e", "--1", "1-", "1.2.", "..1", "++1", "1+", "-.", "1.e3", "1e+", "1.px", "1.s", "1.2.3s", "..5em", "1..5%", "-", "1.ms", ".s", "+.px"}
 
 // numberSpaceStage: a value that looks like a number (with or without unit) and is accepted must
 // be a CSS number.
@@ -93,6 +93,63 @@ func numberSpaceStage(props []string) (fails []*Case, calls int) {
 			if cssNumberLike.MatchString(v) && !cssNumber.MatchString(v) && h(v) {
 				fails = append(fails, &Case{Prop: "C18", Kind: "number", Strs: []BStr{BStr(prop), BStr(v)},
 					Clause: "C18: the default handler for " + q(prop) + " accepts " + q(v) + ", which is not a CSS number"})
+				break
+			}
+		}
+	}
+	return fails, calls
+}
+
+var digitThenDot = regexp.MustCompile(`[0-9]\.(?:[^0-9]|$)`)
+var digitRun = regexp.MustCompile(`[0-9]+`)
+
+// numberInsideStage: accepted seeds get a dot appended to one of their numbers ("1px" -> "1.px",
+// "matrix(1,2,3,4,5,6)" -> "matrix(1.,2,3,4,5,6)"); a number cannot end in a dot anywhere in a CSS value.
+func numberInsideStage(props []string) (fails []*Case, calls int) {
+	pool := append(append([]string{}, cssTokens...), "matrix(1,2,3,4,5,6)", "1px 2px", "translate(1px,2px)", "rgb(1,2,3)", "cubic-bezier(0,0,1,1)", "steps(2,end)", "1 1 0", "0.5", "1", "100%", "1s", "10")
+	for _, prop := range props {
+		h := css.GetDefaultHandler(prop)
+	seeds:
+		for _, seed := range pool {
+			if strings.ContainsAny(seed, "'\"") || strings.Contains(seed, "url(") || digitThenDot.MatchString(seed) {
+				continue
+			}
+			calls++
+			if !h(seed) {
+				continue
+			}
+			for _, loc := range digitRun.FindAllStringIndex(seed, -1) {
+				if loc[1] < len(seed) && (seed[loc[1]] == '.' || seed[loc[1]] >= '0' && seed[loc[1]] <= '9') {
+					continue
+				}
+				if loc[0] > 0 && seed[loc[0]-1] == '.' && false {
+					continue
+				}
+				v := seed[:loc[1]] + "." + seed[loc[1]:]
+				calls++
+				if h(v) {
+					fails = append(fails, &Case{Prop: "C18", Kind: "number", Strs: []BStr{BStr(prop), BStr(v)},
+						Clause: "C18: the default handler for " + q(prop) + " accepts " + q(v) + ", in which a number ends in a dot"})
+					break seeds
+				}
+			}
+		}
+	}
+	return fails, calls
+}
+
+// functionOnlyStage: filter and transform take keywords or a list of function calls, never a bare
+// number, length or word.
+var functionList = regexp.MustCompile(`^(?:none|initial|inherit|unset|(?:[a-z][a-z0-9-]*\([^()]*\)\s*)+)$`)
+
+func functionOnlyStage() (fails []*Case, calls int) {
+	for _, prop := range []string{"filter", "transform"} {
+		h := css.GetDefaultHandler(prop)
+		for _, v := range append(append([]string{}, cssTokens...), "0.5", "1", "50%", "1px", "red", "0", "1px 2px", "auto") {
+			calls++
+			if h(v) && !functionList.MatchString(v) {
+				fails = append(fails, &Case{Prop: "C18", Kind: "function-only", Strs: []BStr{BStr(prop), BStr(v)},
+					Clause: "C18: the default handler for " + q(prop) + " accepts " + q(v) + ", which is neither a keyword of that property nor a list of function calls"})
 				break
 			}
 		}
